@@ -184,7 +184,7 @@ def execKill (props : JVal) : M (R ExecRes) := do
     let act ← activeProcs u
     let pid := pidOfProps props
     let procs := match pid with
-      | some p => if p ≠ 0 then act.filter (fun q => (q : Int) = p) else act
+      | some p => act.filter (fun q => (q : Int) = p)       -- `if pid is not None` (as repaired)
       | none => act
     let sig := (props.get? "signum").bind toSignumJ
     let gt := match props.get? "graceful_timeout" with
